@@ -88,7 +88,8 @@ struct PostStepHost
    DataArray<VarStatus>& cStatus = *cStatus_; DataArray<VarStatus>& rStatus = *rStatus_;
 
 /* common wrapper parameters: the four solution vectors and the two status arrays as raw arrays
- * (x, r, cst: nC entries; y, s, rst: nR entries), the two tolerances, isOptimal */
+ * (x, r, cst: nC entries; y, s, rst: nR entries), the two tolerances, isOptimal.
+ * PS_BIND also records the inputs in the counterexample trace (VIN). */
 #define PS_PARAMS double* x, double* y, double* s, double* r, int* cst, int* rst, int nC, int nR, \
                   double feastol, double eps, int isOptimal
 #define PS_BIND(h) \
@@ -97,7 +98,9 @@ struct PostStepHost
    DataArray<VarStatus> dc; dc.data = (VarStatus*)cst; dc.thesize = nC; \
    DataArray<VarStatus> dr; dr.data = (VarStatus*)rst; dr.thesize = nR; \
    h.x_ = &vx; h.y_ = &vy; h.s_ = &vs; h.r_ = &vr; h.cStatus_ = &dc; h.rStatus_ = &dr; \
-   h.tol_feas = feastol; h.tol_eps = eps; h.isOptimal = (isOptimal != 0);
+   h.tol_feas = feastol; h.tol_eps = eps; h.isOptimal = (isOptimal != 0); \
+   VIN("nC", nC); VIN("nR", nR); VIN_ARR8("cst", cst, nC) VIN_ARR8("rst", rst, nR) \
+   VIN_ARR8("x", x, nC) VIN_ARR8("r", r, nC) VIN_ARR8("y", y, nR) VIN_ARR8("s", s, nR)
 /* sparse vector member from raw arrays; `bnd` = dimension its indices live in */
 #define PS_SVEC(m, idx, val, n, bnd) m.idxs = idx; m.vals = val; m.used = n; m.cap = n; m.bound = bnd;
 #endif
